@@ -151,7 +151,25 @@ def run_case(case, ctx):
         for i, b in enumerate(blocks):
             kw = render_cfg(rng, b['kind'], b['cfg'])
             cls = edzed.TimeDate if b['kind'] == 'td' else edzed.TimeSpan
-            b['obj'] = cls(f"blk{i}", utc=b['utc'], **kw)
+            events = []
+            for link in case.get('links', ()):
+                if link['from'] != i:
+                    continue
+                # every output change of this block reconfigures another block (from inside the
+                # scheduler's recalculation when the change happens at a boundary)
+                dst = blocks[link['to']]
+                lkw = render_cfg(rng, dst['kind'], link['cfg'])
+                if dst['kind'] == 'td':
+                    lkw = {'times': None, 'dates': None, 'weekdays': None, **lkw}
+
+                def flt(data, dst=dst, link=link, lkw=lkw):
+                    if dst['cur'] is not link['cfg']:
+                        ctx.count('linked_reconfigs')
+                    dst['cur'] = link['cfg']
+                    return dict(lkw)
+                events.append(edzed.Event(f"blk{link['to']}", 'reconfig',
+                                          efilter=(edzed.not_from_undef, flt)))
+            b['obj'] = cls(f"blk{i}", utc=b['utc'], on_output=events or None, **kw)
             b['rendered'] = kw
         return blocks
 
@@ -166,6 +184,8 @@ def run_case(case, ctx):
     for op in case['ops']:
         if op[1] == 'reconfig':
             cfgs_of[op[2]].append(op[3])
+    for link in case.get('links', ()):
+        cfgs_of[link['to']].append(link['cfg'])
     for i, b in enumerate(blocks):
         off = 0.0 if b['utc'] else LOCAL.total_seconds()
         for cfg in cfgs_of[i]:
@@ -531,6 +551,14 @@ def random_case(rng, quick):
             seen_jump = True
         kept.append(o)
     case['ops'] = kept
+    if nblocks >= 2 and rng.random() < 0.2:
+        # one block's output change reconfigures another block of the same scheduler; the two
+        # share a time of day (pool), the new configuration is random (often without it)
+        i, j = rng.sample(range(nblocks), 2)
+        if blocks[i]['utc'] == blocks[j]['utc']:
+            fstart = start if blocks[j]['utc'] else start + LOCAL
+            new = g_td_cfg(rng, fstart) if blocks[j]['kind'] == 'td' else g_ts_cfg(rng, fstart)
+            case['links'] = [{'from': i, 'to': j, 'cfg': new}]
     case['maxsamples'] = 150 if quick else 400
     return case
 
